@@ -1,7 +1,14 @@
+import SpecKitV.Props.NumpyKernelsGen
 import SpecKitV.Lemmas.Detrend
 import SpecKitV.Lemmas.DetrendComplete
 import SpecKitV.Props.C01
 
+#print axioms gen_np_win_only_auto_eq_ref
+#print axioms gen_np_win_only_csd_eq_ref
+#print axioms gen_np_detrend0_auto_eq_ref
+#print axioms gen_np_detrend0_csd_eq_ref
+#print axioms gen_np_poly_auto_eq_ref
+#print axioms gen_np_poly_csd_eq_ref
 #print axioms detr_neg_one
 #print axioms detr0_add_const
 #print axioms detr0_sum_zero
